@@ -14,7 +14,7 @@ Vals == {0, 1, 83, 255}
 \* base points as in split_secret: x = 0..k-3 random, 254 digest share, 255 secret
 BasePts == [i \in 1..k |-> IF i <= k - 2 THEN [x |-> i - 1, y |-> <<rnd[i]>>] ELSE IF i = k - 1 THEN [x |-> 254, y |-> <<dshare>>] ELSE [x |-> 255, y |-> <<secret>>]]
 ShareAt(i) == IF k = 1 THEN <<secret>> ELSE IF i < k - 2 THEN <<rnd[i + 1]>> ELSE Interpolate(i, BasePts)
-Init == /\ n \in 1..NMax /\ k \in 1..n /\ secret \in Vals /\ dshare \in {7, 200} /\ rnd \in [1..3 -> {5, 90}] /\ held = {}
+Init == /\ n \in 1..NMax /\ k \in 1..n /\ secret \in Vals /\ dshare \in {7, 200} /\ rnd \in [1..(IF NMax > 5 THEN NMax - 2 ELSE 3) -> {5, 90}] /\ held = {}
 Collect == \E i \in 0..(n - 1) : i \notin held /\ held' = held \cup {i} /\ UNCHANGED <<k, n, secret, dshare, rnd>>
 Spec == Init /\ [][Collect]_vars
 HeldPts == LET s == SetToSeq(held) IN [j \in 1..Len(s) |-> [x |-> s[j], y |-> ShareAt(s[j])]]
